@@ -465,6 +465,10 @@ impl DnsCache {
         // Do not keep an empty list for a service type.
         self.ptr.retain(|_, records| !records.is_empty());
 
+        if !expired_instances.is_empty() {
+            self.prune_subtypes();
+        }
+
         // SRV, TXT and NSEC records that no PTR record points to (any more)
         // expire like all others.
         for map in [&mut self.srv, &mut self.txt, &mut self.nsec] {
@@ -475,6 +479,22 @@ impl DnsCache {
         }
 
         expired_instances
+    }
+
+    /// Forgets the subtype of the instances that no cached subtype PTR record
+    /// points to any more.
+    fn prune_subtypes(&mut self) {
+        let ptr = &self.ptr;
+        self.subtype.retain(|instance, subtype| {
+            ptr.get(subtype).is_some_and(|records| {
+                records.iter().any(|r| {
+                    r.record
+                        .any()
+                        .downcast_ref::<DnsPointer>()
+                        .is_some_and(|dns_ptr| dns_ptr.alias() == instance)
+                })
+            })
+        });
     }
 
     /// Removes all records of a service type: PTR, SRV, TXT records and any ADDR records
@@ -508,6 +528,7 @@ impl DnsCache {
         }
 
         self.ptr.remove(ty_domain);
+        self.prune_subtypes();
 
         // Check all hostnames in `hosts`: for each hostname, check if any SRV record
         // has `hostname` as its host. If no such SRV, remove the ADDR records of this hostname.
@@ -816,6 +837,7 @@ impl DnsCache {
 
         // Remove any PTR entry that no longer has records.
         self.ptr.retain(|_, records| !records.is_empty());
+        self.prune_subtypes();
 
         // Clean up SRV and TXT records for fully removed instances.
         let all_removed: HashSet<&String> = removed_instances.values().flatten().collect();
